@@ -420,6 +420,33 @@ func draw(t *rapid.T) Case {
 			cs.Pol = append(cs.Pol, pol.Stmt{Op: rapid.SampledFrom([]string{"==", "==", ">=", "<"}).Draw(t, "cop"), Sel: rapid.SampledFrom(sels).Draw(t, "csel"), Lit: &lit})
 		}
 	}
+	if rapid.IntRange(0, 11).Draw(t, "focusuint") == 0 {
+		// data holding an integer above MaxInt64 (CBOR uint64), compared with == against ordinary literals under
+		// not / or / and / any / all: equality with a different number is plainly false, and the connectives
+		// around it keep their classical meaning
+		u := val.Uint(rapid.SampledFrom([]uint64{1 << 63, 1<<63 + 5, ^uint64(0)}).Draw(t, "uu"))
+		one, five := val.Int(1), val.Int(5)
+		cs.Data = val.Map(val.E("a", u), val.E("b", one), val.E("l", val.List(one, u, five)), val.E("m", val.List(u, u)))
+		eqA := pol.Stmt{Op: "==", Sel: sel.Sel{{Kind: "field", Name: "a"}}, Lit: &five}
+		eqB := pol.Stmt{Op: "==", Sel: sel.Sel{{Kind: "field", Name: "b"}}, Lit: &one}
+		neB := pol.Stmt{Op: "==", Sel: sel.Sel{{Kind: "field", Name: "b"}}, Lit: &five}
+		elem := pol.Stmt{Op: "==", Sel: sel.Sel{{Kind: "id"}}, Lit: &five}
+		cands := []pol.Stmt{
+			{Op: "not", Sub: []pol.Stmt{eqA}},
+			{Op: "or", Sub: []pol.Stmt{eqA, eqB}},
+			{Op: "or", Sub: []pol.Stmt{eqB, eqA}},
+			{Op: "and", Sub: []pol.Stmt{{Op: "not", Sub: []pol.Stmt{eqA}}, eqB}},
+			{Op: "any", Sel: sel.Sel{{Kind: "field", Name: "l"}}, Sub: []pol.Stmt{elem}},
+			{Op: "not", Sub: []pol.Stmt{{Op: "all", Sel: sel.Sel{{Kind: "field", Name: "m"}}, Sub: []pol.Stmt{elem}}}},
+			{Op: "not", Sub: []pol.Stmt{{Op: "or", Sub: []pol.Stmt{eqA, neB}}}},
+			eqA,
+		}
+		n := rapid.IntRange(1, 3).Draw(t, "un")
+		cs.Pol = nil
+		for i := 0; i < n; i++ {
+			cs.Pol = append(cs.Pol, rapid.SampledFrom(cands).Draw(t, "ustmt"))
+		}
+	}
 	forceCtor := false
 	if rapid.IntRange(0, 11).Draw(t, "focusbigint") == 0 {
 		// ordered comparisons between integers of large magnitude that differ by 1 or 2 (exact int64 arithmetic
